@@ -15,6 +15,7 @@ from mir2smt import interp as MI
 from mir2smt import models as MM
 from mir2smt import fmt_models as FM
 from mir2smt import sstr
+from mir2smt import symval
 from mir2smt.interp import Agg, EnumV, Ref, Opaque, Unencodable
 
 SRC = ["mithril-common/src/signable_builder/cardano_stake_distribution.rs", "mithril-common/src/entities/cardano_block_transaction_mktree_node.rs",
@@ -157,33 +158,111 @@ def run(tier, seed):
             I.frame_counter += 1
             fr = I.frame_counter
             st.mem[(fr, 0)] = v
-            outs = [o for o in I.call_fn(f_li, [Ref(fr, 0, ())], st) if o.kind == "return"]
-            if len(outs) != 1:
-                raise Unencodable("leaf_identifier(%s): %d paths" % (kind, len(outs)))
-            return fields, leaf_of(outs[0].value), list(outs[0].pc)
+            outs = I.call_fn(f_li, [Ref(fr, 0, ())], st)
+            if any(o.kind != "return" for o in outs) or not outs:
+                raise Unencodable("leaf_identifier(%s): non-returning path" % kind)
+            return [(fields, leaf_of(o.value), list(o.pc)) for o in outs]
+
+        def decide_pairs(A, B, same_kind, ob, maxd):
+            status, tot = "unsat", 0.0
+            for fa, la, ca in A:
+                for fb, lb, cb in B:
+                    diff = z3.Or([z3.Not(sstr.equal(x, y)) if isinstance(x, sstr.SymStr) else x != y for x, y in zip(fa, fb)]) if same_kind else z3.BoolVal(True)
+                    r = forked(la, lb, ca + cb, diff, maxd, ob)
+                    tot += r.seconds
+                    if r.status == "sat":
+                        ev = lambda x: sstr.eval_str(r.model, x).decode("latin1") if isinstance(x, sstr.SymStr) else r.model.eval(x, model_completion=True).as_long()
+                        ob.counterexample = {"leaf_a": sstr.eval_str(r.model, la).decode("latin1"), "leaf_b": sstr.eval_str(r.model, lb).decode("latin1"),
+                                             "fields_a": [ev(x) for x in fa], "fields_b": [ev(x) for x in fb]}
+                        ob.solver_s = tot
+                        return "sat"
+                    if r.status != "unsat":
+                        status = "unknown"
+            ob.solver_s = tot
+            return status
 
         for ka, kb in (("Block", "Block"), ("Transaction", "Transaction"), ("Block", "Transaction")):
-            fa, la, ca = node(ka, "a")
-            fb, lb, cb = node(kb, "b")
-            if ka == kb:
-                diff = z3.Or([z3.Not(sstr.equal(x, y)) if isinstance(x, sstr.SymStr) else x != y for x, y in zip(fa, fb)])
-                desc = "equal %s leaves => equal fields" % ka
-            else:
-                diff = z3.BoolVal(True)
-                desc = "a Block leaf never equals a Transaction leaf"
-            ob = rep.add(core.Obligation("c11_%s_vs_%s_leaf_injective" % (ka.lower(), kb.lower()), "smt", desc, {"hash_len": L_HASH}))
-            r = forked(la, lb, ca + cb, diff, MAXD, ob)
-            if r.status == "unsat":
+            A, B = node(ka, "a"), node(kb, "b")
+            desc = ("equal %s leaves => equal fields" % ka) if ka == kb else "a Block leaf never equals a Transaction leaf"
+            ob = rep.add(core.Obligation("c11_%s_vs_%s_leaf_injective" % (ka.lower(), kb.lower()), "smt", desc, {"hash_len": L_HASH, "paths": len(A) * len(B)}))
+            status = decide_pairs(A, B, ka == kb, ob, MAXD)
+            if status == "unsat":
                 ob.status = "discharged"
-            elif r.status == "sat":
+            elif status == "sat":
                 ob.status = "failed"
-                ob.counterexample = {"leaf_a": sstr.eval_str(r.model, la).decode("latin1"), "leaf_b": sstr.eval_str(r.model, lb).decode("latin1")}
-                failures.append(("%s_vs_%s" % (ka.lower(), kb.lower()), ob, None))
+                failures.append(("%s_vs_%s" % (ka.lower(), kb.lower()), ob, ("node", ka, kb)))
             else:
                 ob.status = "inconclusive"
-                rep.inconcl("%s vs %s: %s" % (ka, kb, r.reason))
+                rep.inconcl("%s vs %s: solver gave up" % (ka, kb))
+        # ---- item level: CardanoBlock / CardanoTransaction -> node -> MKTreeNode (the conversions the client-side proof check uses) ----
+        from mir2smt import symval
+        db = symval.TypeDB([os.path.join(core.REPO, "mithril-common", "src")])
+
+        def item(kind, tag):
+            tyname = "CardanoBlock" if kind == "Block" else "CardanoTransaction"
+            fl = db.struct_fields(tyname)
+            vals, cons, fields = [], [], []
+            for fname, fty in fl:
+                nt = MI.norm_type(fty)
+                al = db.alias(nt)
+                if nt == "String" or (al and MI.norm_type(al) == "String"):
+                    sv, c1 = sstr.symbolic("%s_%s_%s" % (tyname, fname, tag), L_HASH, HEX)
+                    cons += c1
+                    vals.append(sv)
+                    fields.append(sv)
+                else:
+                    iv = z3.Int("%s_%s_%s" % (tyname, fname, tag))
+                    cons += [iv >= 0, iv < U64]
+                    vals.append(Agg("adt", nt, (iv,)))
+                    fields.append(iv)
+            f_conv = prog.find_one(r"cardano_block_transaction_mktree_node\.rs.*>::from$", nparams=1, param_regex=r"_1: (\w+::)*%s\)" % tyname)
+            f_leaf = prog.find_one(r"cardano_block_transaction_mktree_node\.rs.*>::from$", nparams=1, param_regex=r"_1: (\w+::)*CardanoBlockTransactionMkTreeNode\)")
+            st = MI.State()
+            for c in cons:
+                st.assume(c)
+            outs = []
+            for o in I.call_fn(f_conv, [Agg("adt", tyname, tuple(vals))], st):
+                if o.kind != "return":
+                    raise Unencodable("conversion of %s: %s" % (tyname, o.kind))
+                for o2 in I.call_fn(f_leaf, [o.value], o.state):
+                    if o2.kind != "return":
+                        raise Unencodable("leaf of %s: %s" % (tyname, o2.kind))
+                    outs.append((fields, leaf_of(o2.value), list(o2.pc)))
+            return outs
+
+        for ka, kb in (("Block", "Block"), ("Transaction", "Transaction"), ("Block", "Transaction")):
+            A, B = item(ka, "a"), item(kb, "b")
+            ob = rep.add(core.Obligation("c11_item_%s_vs_%s_injective" % (ka.lower(), kb.lower()), "smt",
+                                         ("distinct %ss have distinct Merkle leaves" % ka) if ka == kb else "a block and a transaction never share a Merkle leaf",
+                                         {"paths": len(A) * len(B), "hash_len": L_HASH}))
+            status = decide_pairs(A, B, ka == kb, ob, MAXD)
+            if status == "unsat":
+                ob.status = "discharged"
+            elif status == "sat":
+                ob.status = "failed"
+                failures.append(("item_%s_vs_%s" % (ka.lower(), kb.lower()), ob, ("item", ka, kb)))
+            else:
+                ob.status = "inconclusive"
+                rep.inconcl("item %s vs %s: solver gave up" % (ka, kb))
+        # ---- wide numbers: every u64 digit class with one-character hashes (boundaries such as 2^63) ---------------------------
+        if MAXD < 20:
+            save = L_HASH
+            L_HASH = 1
+            for ka in ("Block", "Transaction"):
+                A, B = node(ka, "wa"), node(ka, "wb")
+                ob = rep.add(core.Obligation("c11_%s_leaf_injective_all_u64" % ka.lower(), "smt", "equal %s leaves => equal fields, numbers over all of u64 (20 digit classes), hashes of length <= 1" % ka))
+                status = decide_pairs(A, B, True, ob, 20)
+                if status == "unsat":
+                    ob.status = "discharged"
+                elif status == "sat":
+                    ob.status = "failed"
+                    failures.append(("%s_leaf_wide" % ka.lower(), ob, ("node", ka, ka)))
+                else:
+                    ob.status = "inconclusive"
+                    rep.inconcl("wide %s: solver gave up" % ka)
+            L_HASH = save
         # vacuity: the encoding really renders: a concrete block leaf equals the expected text
-        fa, la, ca = node("Block", "w")
+        fa, la, ca = node("Block", "w")[0]
         ob = rep.add(core.Obligation("c11_witness_block_leaf_text", "smt", "witness: hash 'ab', block 5, slot 13 renders as 'Block/ab/5/13' (translator sanity)"))
         want = sstr.literal(b"Block/ab/5/13")
         r = smt.check(ca + [sstr.equal(fa[0], sstr.literal(b"ab")), fa[1] == 5, fa[2] == 13, z3.Not(sstr.equal(la, want))], timeout_s=tmo)
@@ -214,6 +293,25 @@ def run(tier, seed):
                 reproduced = res[0] == "equal" and res[1] == "different"
             except Exception as e:
                 native["error"] = str(e)
+        if cex and cex[0] in ("item", "node") and ob.counterexample:
+            level, ka, kb = cex
+            if ka == kb:
+                try:
+                    from checks.c17 import native_query
+                    fa, fb = ob.counterexample["fields_a"], ob.counterexample["fields_b"]
+                    if level == "item":
+                        # item fields are in struct declaration order; the native query wants (hash.., n, slot)
+                        db2 = symval.TypeDB([os.path.join(core.REPO, "mithril-common", "src")])
+                        names = [n_ for n_, t_ in db2.struct_fields("CardanoBlock" if ka == "Block" else "CardanoTransaction")]
+                        da, dbb = dict(zip(names, fa)), dict(zip(names, fb))
+                        order = ["block_hash", "block_number", "slot_number"] if ka == "Block" else ["transaction_hash", "block_hash", "block_number", "slot_number"]
+                        fa, fb = [da[n_] for n_ in order], [dbb[n_] for n_ in order]
+                    q = "leaf_eq %s %s %s %s" % (level, "block" if ka == "Block" else "tx", " ".join(str(x) if x != "" else "-" for x in fa), " ".join(str(x) if x != "" else "-" for x in fb))
+                    res = [l for l in native_query([q]) if l in ("equal", "different")]
+                    native = {"query": q, "leaves": res[0]}
+                    reproduced = res[0] == "equal" and fa != fb
+                except Exception as e:
+                    native = {"error": str(e)}
         ob.role = role
         path = core.write_replay("C11", k, {"property": "C11", "role": role, "obligation": ob.name, "counterexample": ob.counterexample, "native_replay": native})
         rep.violation(role, "%s: %s; native %s" % (name, ob.counterexample, native), path, reproduced)
